@@ -636,6 +636,10 @@ func (c *Client) lockWrite(quit <-chan struct{}) (net.Conn, error) {
 
 var connClosedErrors = []error{net.ErrClosed, io.ErrClosedPipe}
 
+// ErrConnLost signals that a submission from another goroutine failed on the
+// connection in use by the read routine.
+var errConnLost = fmt.Errorf("%w; connection lost by a concurrent submission", ErrSubmit)
+
 // Write submits the packet. Keep synchronised with writeBuffers!
 func (c *Client) write(quit <-chan struct{}, p []byte) error {
 	conn, err := c.lockWrite(quit)
@@ -692,6 +696,35 @@ func (c *Client) writeBuffersNoWait(p net.Buffers) error {
 
 	// transfer
 	err := writeBuffersTo(conn, p, c.PauseTimeout)
+	if err != nil {
+		if !nonNilIsAny(err, connClosedErrors) {
+			conn.Close() // signal read routine
+		}
+		// unlock write; pending connect
+		c.writeSem <- connPending
+		return errors.Join(ErrSubmit, err)
+	}
+
+	c.writeSem <- conn // unlock write
+	return nil
+}
+
+// WriteNoWait is like write, yet it does not wait for pending connects. The
+// read routine must use this variant for its own submissions, because a
+// pending (re)connect can only be resolved by the read routine itself.
+func (c *Client) writeNoWait(p []byte) error {
+	// lock write
+	conn, ok := <-c.writeSem
+	switch {
+	case !ok:
+		return ErrClosed
+	case conn == connDown, conn == connPending:
+		c.writeSem <- conn // unlock
+		return errConnLost
+	}
+
+	// transfer
+	err := writeTo(conn, p, c.PauseTimeout)
 	if err != nil {
 		if !nonNilIsAny(err, connClosedErrors) {
 			conn.Close() // signal read routine
@@ -1205,7 +1238,7 @@ func (c *Client) readSlices() (message, topic []byte, err error) {
 				return nil, nil, err
 			}
 		}
-		err := c.write(nil, c.pendingAck)
+		err := c.writeNoWait(c.pendingAck)
 		if err != nil {
 			c.toOffline()
 			return nil, nil, err // keeps pendingAck to retry
@@ -1426,7 +1459,7 @@ func (c *Client) onPUBREL() error {
 		return fmt.Errorf("mqtt: internal error: ack %#x pending during PUBREL reception", c.pendingAck)
 	}
 	c.pendingAck = append(c.pendingAck, typePUBCOMP<<4, 2, byte(packetID>>8), byte(packetID))
-	err = c.write(nil, c.pendingAck)
+	err = c.writeNoWait(c.pendingAck)
 	if err != nil {
 		return err // causes resubmission of PUBCOMP
 	}
